@@ -399,6 +399,10 @@ impl WriteBuffer {
 
             while !shutdown.load(Ordering::Acquire) {
                 thread::sleep(interval);
+                #[cfg(feoxdb_verif)]
+                if crate::verif::dev::periodic_flush_paused() {
+                    continue;
+                }
 
                 let retirements_pending = !retirement_queue.pending.lock().is_empty();
                 for (worker_id, channel) in worker_channels.iter().enumerate() {
